@@ -88,12 +88,20 @@ async fn handle_connection(mut socket: WebSocket, state: ApiState) {
     // Stream live data if requested
     if request.live {
         let mut rx = state.ingester.subscribe();
+        // Live rows are held to the query's WHERE clause, like the historical rows above.
+        // No merge cut-off: the handler streams every matching row flushed from now on.
+        let live_filter = crate::query::QueryFilter::from_sql(&request.query);
 
         loop {
             tokio::select! {
                 result = rx.recv() => {
                     match result {
                         Ok(batch) => {
+                            let batch = match live_filter.apply(&batch, i64::MIN) {
+                                Ok(Some(matching)) => matching,
+                                Ok(None) => continue, // no row of this batch matches
+                                Err(_) => break,
+                            };
                             let json = batch_to_json(&batch);
                             let msg = StreamMessage {
                                 msg_type: "data".to_string(),
